@@ -78,6 +78,12 @@ type rootNodeLoc struct {
 	// More nodes to maybe reclaim when our reference count goes to 0.
 	// But they might be repeated, so we scan for them during reclaimation.
 	reclaimLater [3]*node
+
+	// Set when a Collection holding this root was closed.  If no newer
+	// root was derived from this one by the time the reference count
+	// goes to 0, then nobody else can share our nodes and the whole
+	// cached tree is reclaimed, not just the superseded nodes.
+	reclaimTree bool
 }
 
 // Name returns as a string the name of the collection
@@ -92,8 +98,13 @@ func (t *Collection) closeCollection() { // Just "close" is a keyword.
 	t.rootLock.Lock()
 	r := t.root
 	t.root = nil
+	if r != nil {
+		// The root might still be shared with snapshots, readers or a
+		// replacement Collection, whose trees share our nodes, so the
+		// tree can only be reclaimed once the last reference is gone.
+		r.reclaimTree = true
+	}
 	t.rootLock.Unlock()
-	t.reclaimMarkUpdate(r.root, nil, &r.reclaimMark)
 	if r != nil {
 		t.rootDecRef(r)
 	}
@@ -786,6 +797,9 @@ func (t *Collection) rootCAS(prev, next *rootNodeLoc) bool {
 		return false // TODO: Callers need to release resources.
 	}
 	t.root = next
+	if prev != nil {
+		prev.reclaimTree = false // The next root shares nodes with prev.
+	}
 
 	if prev != nil && prev.refs > 2 {
 		// Since the prev is in-use, hook up its chain to disallow
@@ -824,6 +838,8 @@ func (t *Collection) rootDecRefUnlocked(r *rootNodeLoc) {
 	}
 	if r.chainedCollection != nil && r.chainedRootNodeLoc != nil {
 		r.chainedCollection.rootDecRefUnlocked(r.chainedRootNodeLoc)
+	} else if r.reclaimTree {
+		markTreeReclaimableUnlocked(r.root, &r.reclaimMark)
 	}
 	t.reclaimNodesUnlocked(r.root.Node(), &r.reclaimLater, &r.reclaimMark)
 	for i := 0; i < len(r.reclaimLater); i++ {
